@@ -321,6 +321,62 @@ def check_translator(ctx):
 
 
 
+# ------------------------------------------------------------------ per-element probe of the implementation
+def probe_elements(ctx, trees, nmap, rules):
+    """The closure clause asked of the IMPLEMENTATION, element name by element name (code paths may be
+    keyed on the element name, not on the rule): a child name that validate.node does not reject as
+    not-allowed under an element must be a known element, or whole-tree validation must not look at it
+    (the documented exception `metadata`: any single child, opaque to tree validation)."""
+    from metapype.eml import validate
+    from metapype.model.node import Node
+    unknown = "".join(list("zzUnknownChild"))
+    known = [n for n in nmap if trees.get(n) is not None]
+    probes = 0
+    for n in nmap:
+        base = trees.get(n)
+        if base is None:
+            continue
+        try:
+            permitted = set(spec_names(parse_children(rules[nmap[n]][1])))
+        except Exception:  # noqa
+            permitted = set()
+        others = [k for k in known if k not in permitted and k != n]
+        xs = [unknown] + (ctx.rng.sample(others, 2) if len(others) >= 2 else others)
+        for x in xs:
+            xt = trees[x] if x in nmap else ("".join(list(x)), None, [], [])
+            for shape, kids in (("only child", [xt]), ("after the witness children", base[3] + [xt]),
+                                ("before the witness children", [xt] + base[3])):
+                if shape != "only child" and not base[3]:
+                    continue
+                t = (base[0], base[1], base[2], kids)
+                node = RL.build_tree(t)
+                nff, ncodes = RL.run_both(lambda errs: validate.node(node, errs))
+                probes += 1
+                ctx.case(("probe", n, x, shape), True)
+                child_rejected = "CHILD_NOT_ALLOWED" in ncodes or nff == "ChildNotAllowedError"
+                if n == "metadata":
+                    tff, tcodes = RL.run_both(lambda errs: validate.tree(node, errs))
+                    if x not in nmap and ("UNKNOWN_NODE" in tcodes or tff == "UnknownNodeError"):
+                        ctx.fail("C10:metadata-not-opaque", "validate.tree descends below 'metadata' although single-node validation lets it hold any child",
+                                 {"kind": "impl-vs-statement", "tree": tree_json(t), "validate.node": [nff, ncodes], "validate.tree": [tff, tcodes]})
+                    Node.store.clear()
+                    continue
+                if not child_rejected:
+                    tff, tcodes = RL.run_both(lambda errs: validate.tree(node, errs))
+                    rep = {"kind": "impl-vs-statement", "element": n, "child_name": x, "shape": shape, "tree": tree_json(t),
+                           "validate.node (fail-fast, collected codes)": [nff, ncodes],
+                           "validate.tree (fail-fast, collected codes)": [tff, tcodes]}
+                    if x not in nmap:
+                        ctx.fail(f"C10:node-accepts-unknown-child:{n}",
+                                 f"validate.node does not reject the child name '{x}' under '{n}' ({shape}), it is not a known element, and validate.tree answers {tff}",
+                                 rep, concrete=(tff == "UnknownNodeError" or "UNKNOWN_NODE" in tcodes))
+                    else:
+                        ctx.fail(f"corr:permits:{n}", f"validate.node does not reject the child '{x}' under '{n}' although the rule table does not permit it",
+                                 rep, concrete=False)
+                Node.store.clear()
+    ctx.count("element probes (foreign / unpermitted child under every element name)", probes)
+
+
 # ------------------------------------------------------------------ statelessness of the read-only rule API
 def _call(fn):
     try:
@@ -640,6 +696,8 @@ def run(ctx):
                  f"child name '{c}' is permitted by the rule of '{rep['parent_element']}' but is not a known element: "
                  "validate.node accepts the parent, validate.tree raises UnknownNodeError",
                  rep, concrete=bool(rep.get("demonstrated")))
+    # ---- the closure clause probed on the implementation, element by element
+    probe_elements(ctx, trees, nmap, rules)
     # ---- statelessness: the whole read-only API twice, then the tables and the witnesses once more
     exercise_rule_api(ctx, trees, file_rules, file_nmap)
     check_translator(ctx)
